@@ -1321,3 +1321,12 @@ def thread_executions_fine(sess, rng, count, thread_log, kinds=("TMF", "TMP", "P
         for k in range(0, total, stride):
             x += 1
             _sched.run_execution(sess, x, kind, params, g, calls, [(0, k), (1, None), (0, None)], thread_log, fine=True)
+
+
+def known_finding_witnesses(sess):
+    """The specific inputs of the findings listed in known_findings.json, so that every run meets them."""
+    for kind, sw in (("TMP", 3.0), ("BTP", 0.5)):
+        sess.reset()
+        mh = sess.model(kind)
+        teams = [[mh.m.rating(40.0, 3.0)], [mh.m.rating(40.0, 3.0)], [mh.m.rating(10.0, sw)]]
+        sess.rate(mh, teams, ranks=[3, 2, 1])
